@@ -45,7 +45,7 @@ func checkActions(c *Ctx, bounds bool) error {
 		per = 16 // two packages per grammar
 	}
 	d := newDrawer()
-	o := drawOpts{errPct: 0, bounds: 0, minSent: 2}
+	o := drawOpts{errPct: 0, bounds: 0, minSent: 2, large: true}
 	if bounds {
 		// a third of the grammars have @error productions: lexer ERROR tokens
 		// placed where the grammar has @error are shifted like any token (no
@@ -101,6 +101,7 @@ func checkActions(c *Ctx, bounds bool) error {
 	}
 	parallel(nBatches-1, 4, func(i int) { doBatch(i + 1) })
 	c.Ev.Set("grammars_drawn", d.drawn)
+	c.Ev.Set("large_grammars_drawn", d.large)
 	c.nontrivMin = 200
 	return nil
 }
